@@ -25,6 +25,13 @@ class GeneratedSpec(object):
         self.key = key
         rnd = random.Random(key)
         self.rnd = rnd
+        import os
+        if os.environ.get('VF_PROFILE') == 'flat':        # development aid: top-level primitive types only
+            import copy
+            profile = copy.deepcopy(profile)
+            profile.p_constructed_top = 0.0
+            profile.n_types = (8, 12)
+            profile.p_type_tag = 0.0
         g = Gen(rnd, profile)
         self.spec = g.spec()
         self.features = g.features
